@@ -26,7 +26,7 @@ RULE = ("one case = a batch of 5 generated histories (6..11 operations each over
         "three fresh child processes: A and B with the same seed but different PYTHONHASHSEED / numpy / random states and foreign "
         "draws interleaved in B, C with a different seed. Non-trivial: history with >= 3 operations of >= 2 kinds incl. a "
         "sampling and a training operation; distinct by the history digest.")
-REQUIRED = ["histories_run_in_process", "histories_compared_across_processes", "operation_digests_compared", "torch_rng_draws_observed",
+REQUIRED = ["in_process_vs_fresh_process_comparisons", "histories_run_in_process", "histories_compared_across_processes", "operation_digests_compared", "torch_rng_draws_observed",
             "foreign_rng_probe_calls", "read_only_ops_guarded", "protected_write_ops_inspected", "different_seed_comparisons"]
 ANCHOR_FILES = ["qucumber/__init__.py"]
 REACH = [
@@ -115,12 +115,13 @@ def run_case(case, ctx):
         hid = case["batch"] * 5 + j
         specs.append(c14_hist.make_spec(rng, hid, SEEDS[hid % len(SEEDS)]))
     # ---- (ii) + (iv): in-process, under the monitors
-    for spec in specs:
+    inproc = {}
+    for spec in reversed(specs):  # another order than in the children: a history must not depend on its predecessors
         hooks = Hooks(ctx, spec)
         with monitors.ForeignRNGAudit(bootstrap.REPO) as audit:
             mon_all = None
             try:
-                ctx.lib("history", c14_hist.run_history, spec, hooks=hooks, tags={"state": spec["kind"]})
+                inproc[str(spec["hid"])] = ctx.lib("history", c14_hist.run_history, spec, hooks=hooks, tags={"state": spec["kind"]})
             finally:
                 if hooks.mon is not None:
                     hooks.mon.__exit__(None, None, None)
@@ -164,6 +165,16 @@ def run_case(case, ctx):
                           f"operation {k} ({a[k][0] if k < len(a) else 'END'}) although only the numpy / random / hash-seed state of the "
                           f"process differed; ops: {spec['ops']}", tags=dict(tags, op=a[k][0] if k < len(a) else "END"),
                           witness={"spec": spec})
+        # the same seeded history run in THIS process (which has executed other histories before it) must give the same
+        # digests as in the fresh child: nothing may leak from earlier runs (class-level / module-level state)
+        ip = inproc.get(h)
+        if ip is not None:
+            ctx.count("in_process_vs_fresh_process_comparisons")
+            if [list(x) for x in ip] != [list(x) for x in a]:
+                k = next((i for i, (x, y) in enumerate(zip(ip, a)) if list(x) != list(y)), min(len(ip), len(a)))
+                ctx.violation("depends-on-process-history", f"history {h} ({spec['kind']}, seed {spec['seed']}): the seeded run gives different "
+                              f"results in a process that has run other histories before than in a fresh process, first at operation "
+                              f"{k} ({a[k][0] if k < len(a) else 'END'})", tags=dict(tags, op=a[k][0] if k < len(a) else "END"), witness={"spec": spec})
         ctx.count("different_seed_comparisons")
         sa = [d for op, d in a if op in ("construct", "sample")]
         sc = [d for op, d in c if op in ("construct", "sample")]
